@@ -851,6 +851,63 @@ func (e *Engine) evalSpecCall(x *SExpr, env *SpecEnv) Value {
 			return e.zeroValue(vt.Typ)
 		}
 		unsup("spec: zero() of a non-scalar")
+	case "uf_Str", "uf_Int", "uf_Real", "uf_Bool":
+		// uf_<Sort>("name", args...): the uninterpreted function of that name used by the model of an external
+		// (e.g. uf_Str("str_FormatFloat", x, 103, 0 - 1, bits) is what strconv.FormatFloat(x, 'g', -1, bits) denotes)
+		if len(args) < 1 || args[0].Kind != "str" {
+			unsup("spec: %s expects a function name", name)
+		}
+		var ts []*Term
+		for _, a := range args[1:] {
+			ts = append(ts, term(e.evalSpec(a, env)))
+		}
+		switch name {
+		case "uf_Str":
+			return VTerm{T: mkApp(args[0].Val, SStr, ts...), Typ: types.Typ[types.String]}
+		case "uf_Real":
+			return VTerm{T: mkApp(args[0].Val, SReal, ts...), Typ: types.Typ[types.Float64]}
+		case "uf_Bool":
+			return VTerm{T: mkApp(args[0].Val, SBool, ts...), Typ: boolT}
+		}
+		return VTerm{T: mkApp(args[0].Val, SInt, ts...), Typ: intT}
+	case "rkind":
+		return VTerm{T: mkApp("reflect_kind", SInt, term(e.evalSpec(args[0], env))), Typ: intT}
+	case "rval":
+		// rval(v, "Float"): the payload of the reflect.Value v as read by v.Float() / written by v.SetFloat(x)
+		if len(args) != 2 || args[1].Kind != "str" {
+			unsup("spec: rval(v, \"Accessor\")")
+		}
+		v := term(e.evalSpec(args[0], env))
+		so, ty := SInt, types.Type(intT)
+		switch args[1].Val {
+		case "Float":
+			so, ty = SReal, types.Typ[types.Float64]
+		case "String":
+			so, ty = SStr, types.Typ[types.String]
+		case "Bool":
+			so, ty = SBool, boolT
+		}
+		return VTerm{T: env.st.getMem("rval_"+args[1].Val+":"+v.String(), mkApp("rval_"+args[1].Val, so, v)), Typ: ty}
+	case "kindbits":
+		// helper.kindToBits[k]: the fixed package-level table
+		for _, p := range e.w.Pkgs {
+			if shortPkg(p.PkgPath) == "helper" {
+				if o, ok := p.Types.Scope().Lookup("kindToBits").(*types.Var); ok {
+					if m, ok := e.globalVar(o).(VMap); ok {
+						v, _ := e.mapGet(m, term(e.evalSpec(args[0], env)))
+						return v
+					}
+				}
+			}
+		}
+		unsup("spec: kindbits: helper.kindToBits not found")
+	case "trunc":
+		// int(x) of a float: truncation toward zero, the same term the conversion in the code produces
+		vs := evalArgs()
+		x := toReal(term(vs[0]))
+		fl := &Term{Op: "to_int", Args: []*Term{x}, Sort: SInt}
+		neg := &Term{Op: "-", Args: []*Term{&Term{Op: "to_int", Args: []*Term{mkNeg(x)}, Sort: SInt}}, Sort: SInt}
+		return VTerm{T: mkIte(mkCmp(">=", x, toReal(mkInt(0))), fl, neg), Typ: intT}
 	case "round":
 		// math.Round: half away from zero
 		vs := evalArgs()
